@@ -23,7 +23,7 @@ def units(tier):
 
 def runner_tasks(tier):
     return [{"module": "c17", "task": "sample", "kind": "bounded", "clause": "calculator vs direct neutron_sld and documented equations"},
-            {"module": "stateful", "task": "C17", "name": "stateful", "kind": "bounded", "clause": "tiny non-zero weights / densities are not the zero case"}]
+            {"module": "stateful", "task": "C17", "name": "stateful", "kind": "bounded", "clause": "tiny non-zero weights / densities are not the zero case; repeated objects; typed wavelength vectors; weight vector refilled in place between calls"}]
 
 
 REPLAY = {'module': 'c17', 'task': 'replay'}
